@@ -110,9 +110,7 @@ func (f UpdateHandlerFunc) HandleUpdate(s *channel.State, u ChannelUpdate, r *Up
 
 // Accept accepts the channel update.
 func (r *UpdateResponder) Accept(ctx context.Context) error {
-	defer func() {
-		r.done <- struct{}{}
-	}()
+	defer r.signalDone()
 
 	if ctx == nil {
 		return errors.New("context must not be nil")
@@ -126,9 +124,7 @@ func (r *UpdateResponder) Accept(ctx context.Context) error {
 
 // Reject rejects the channel update.
 func (r *UpdateResponder) Reject(ctx context.Context, reason string) error {
-	defer func() {
-		r.done <- struct{}{}
-	}()
+	defer r.signalDone()
 
 	if ctx == nil {
 		return errors.New("context must not be nil")
@@ -138,6 +134,16 @@ func (r *UpdateResponder) Reject(ctx context.Context, reason string) error {
 	}
 
 	return r.channel.rejectUpdate(ctx, r.pidx, r.req, reason)
+}
+
+// signalDone tells handleUpdateReq that the responder has been used. The done
+// channel has a single slot and is only drained when the user's update handler
+// was asked, so a repeated call (which returns an error) must not block on it.
+func (r *UpdateResponder) signalDone() {
+	select {
+	case r.done <- struct{}{}:
+	default:
+	}
 }
 
 // Update proposes a state update to the channel participants as
